@@ -67,6 +67,31 @@ pub fn record(args: &Args) {
 		let eq: Vec<Vec<bool>> = (0..n).map(|i| (0..n).map(|j| vals[i] == vals[j]).collect()).collect();
 		let cmp: Vec<Vec<i64>> = (0..n).map(|i| (0..n).map(|j| ord(vals[i].cmp(&vals[j]))).collect()).collect();
 		let pcmp: Vec<Vec<i64>> = (0..n).map(|i| (0..n).map(|j| vals[i].partial_cmp(&vals[j]).map(ord).unwrap_or(9)).collect()).collect();
+		// the derived comparison operators (ne lt le gt ge, max/min) and the Object-level impls must say what cmp says:
+		// bit 0 ne, 1 lt, 2 le, 3 gt, 4 ge, 5 max is the greater, 6 min is the lesser, 7 objects agree with their Values
+		let rel: Vec<Vec<u64>> = (0..n)
+			.map(|i| {
+				(0..n)
+					.map(|j| {
+						let (a, b) = (&vals[i], &vals[j]);
+						let mut m = 0u64;
+						m |= (a != b) as u64;
+						m |= ((a < b) as u64) << 1;
+						m |= ((a <= b) as u64) << 2;
+						m |= ((a > b) as u64) << 3;
+						m |= ((a >= b) as u64) << 4;
+						m |= ((a.clone().max(b.clone()) == *(if a.cmp(b) == Ordering::Greater { a } else { b })) as u64) << 5;
+						m |= ((a.clone().min(b.clone()) == *(if a.cmp(b) == Ordering::Greater { b } else { a })) as u64) << 6;
+						let objs_ok = match (a.as_object(), b.as_object()) {
+							(Some(x), Some(y)) => (x == y) == (a == b) && x.cmp(y) == a.cmp(b) && x.partial_cmp(y) == Some(a.cmp(b)) && (hash_of(x) == hash_of(y)) == (hash_of(a) == hash_of(b)),
+							_ => true,
+						};
+						m |= (objs_ok as u64) << 7;
+						m
+					})
+					.collect()
+			})
+			.collect();
 		let h1: Vec<u64> = vals.iter().map(|v| hash_of(v)).collect();
 		let h2: Vec<u64> = vals
 			.iter()
@@ -76,7 +101,7 @@ pub fn record(args: &Args) {
 				h.finish()
 			})
 			.collect();
-		lines.push(json!({"ev": "order", "vals": vals.iter().map(project).collect::<Vec<_>>(), "eq": eq, "cmp": cmp, "pcmp": pcmp,
+		lines.push(json!({"ev": "order", "vals": vals.iter().map(project).collect::<Vec<_>>(), "eq": eq, "cmp": cmp, "pcmp": pcmp, "rel": rel,
 			"h1": classes(&h1), "h2": classes(&h2)}));
 	}
 	use std::io::Write;
